@@ -5,4 +5,4 @@ Extraction Language OCaml.
 Extraction "Extract/m_cli.ml"
   Cli.classify Cli.take_valueish Cli.key_of Cli.parse Cli.to_vec Cli.parse_alias_tokens Cli.resolve_alias
   Cli.no_pre_command_meta Cli.meta_last Cli.meta_normalise Cli.Known_C18 Cli.spec_command
-  Cli.git_norm Cli.git_command Cli.git_expands_alias.
+  Cli.git_norm Cli.git_command Cli.git_expands_alias Cli.git_split Cli.alias_edge Cli.is_shell_alias.
